@@ -25,6 +25,8 @@ pub enum Play {
     LateThenStall { first_delay_ms: u64, bytes: Vec<u8>, hold_ms: u64 },
     /// read the request, wait `delay_ms`, then write the whole response and close
     DelayedRespond { delay_ms: u64, bytes: Vec<u8> },
+    /// accept, never read a byte, never write; hold the connection for `hold_ms` (or until the peer goes away)
+    AcceptNoRead { hold_ms: u64 },
 }
 
 #[derive(Clone, Debug)]
@@ -168,6 +170,10 @@ impl ScriptedServer {
                                             break;
                                         }
                                     }
+                                }
+                                Play::AcceptNoRead { hold_ms } => {
+                                    rec(Vec::new(), None, None);
+                                    std::thread::sleep(Duration::from_millis(hold_ms));
                                 }
                                 Play::DelayedRespond { delay_ms, bytes } => {
                                     let (raw, p, m) = read_request(&mut s, Duration::from_secs(5));
